@@ -307,6 +307,16 @@ func C15(r *core.Run) {
 					wantBg = -1
 				}
 				if (wantFg >= 256 || wantBg >= 256) && ti.Colors > 256 {
+					// a direct-colour entry: what an index of 256 or more selects is the entry's own
+					// business, but it is in range, so the component may not be dropped
+					tm := vt.New(2, 1)
+					b, _, _ := tiref.StripPadding(s)
+					tm.Feed(b)
+					if (wantFg >= 0 && tm.Pen.Fg.K == vt.Default) || (wantBg >= 0 && tm.Pen.Bg.K == vt.Default) {
+						r.Violate("tcolor:in-range-component-dropped", fmt.Sprintf("%s (%d colours): TColor(%d,%d)=%q leaves a plane at its default although the index is within the entry's colour count", ti.Name, ti.Colors, fg, bg, s), nil)
+						return
+					}
+					n++
 					continue
 				}
 				if wantFg < 0 && wantBg < 0 {
